@@ -26,8 +26,19 @@ import (
 	"verif/gosym/sym"
 )
 
-const repoRoot = "/repo"
+// repoRoot is /repo for every registered check. GOSYM_REPO / GOSYM_OUT exist only for tools/tryseed.sh, which runs a
+// check against a scratch worktree carrying a seeded change and must not overwrite the committed evidence.
+var repoRoot = envOr("GOSYM_REPO", "/repo")
+var outRoot = envOr("GOSYM_OUT", "/verif")
+
 const verifRoot = "/verif"
+
+func envOr(k, d string) string {
+	if v := os.Getenv(k); v != "" {
+		return v
+	}
+	return d
+}
 
 type harnessFile struct {
 	Path     string // real path under /verif/harness
@@ -762,7 +773,7 @@ func finish(prop, tier string, seed int, files []*harnessFile, results []*entryR
 	knownHits := map[string]string{}
 	spurious := []string{}
 	witnessOK, witnessBad, witnessApprox := 0, 0, 0
-	replayDir := filepath.Join(verifRoot, "replays", prop)
+	replayDir := filepath.Join(outRoot, "replays", prop)
 	type grpKey struct{ dir, mod, repl string }
 	grpRepl := map[grpKey]map[string]string{}
 	if !noReplay {
@@ -930,9 +941,9 @@ func finish(prop, tier string, seed int, files []*harnessFile, results []*entryR
 		"wall_s":      time.Since(t0).Seconds(),
 		"violations":  len(violations),
 	}
-	os.MkdirAll(filepath.Join(verifRoot, "evidence"), 0755)
+	os.MkdirAll(filepath.Join(outRoot, "evidence"), 0755)
 	b, _ := json.MarshalIndent(ev, "", " ")
-	os.WriteFile(filepath.Join(verifRoot, "evidence", prop+".json"), b, 0644)
+	os.WriteFile(filepath.Join(outRoot, "evidence", prop+".json"), b, 0644)
 	fmt.Printf("SUMMARY property=%s tier=%s entries=%d paths=%d instrs=%d obligations=%d unsat=%d sat=%d unknown=%d witnesses_ok=%d witness_bad=%d known=%d violations=%d inconclusive=%d wall=%.1fs\n",
 		prop, tier, len(results), totalPaths, totalSteps, nObl, nDis, nSat, nUnknown, witnessOK, witnessBad, len(khKeys), len(violations), len(inconclusive), time.Since(t0).Seconds())
 	if len(violations) > 0 {
@@ -947,9 +958,9 @@ func writeFailureEvidence(prop, tier string, seed int, msg string, wall float64)
 		"coverage": map[string]interface{}{"explanation": "check could not run: " + msg, "exhaustive": false},
 		"wall_s":   wall, "violations": 0,
 	}
-	os.MkdirAll(filepath.Join(verifRoot, "evidence"), 0755)
+	os.MkdirAll(filepath.Join(outRoot, "evidence"), 0755)
 	b, _ := json.MarshalIndent(ev, "", " ")
-	os.WriteFile(filepath.Join(verifRoot, "evidence", prop+".json"), b, 0644)
+	os.WriteFile(filepath.Join(outRoot, "evidence", prop+".json"), b, 0644)
 }
 
 func replayOnly(prop, tier string, files []*harnessFile, path string) int {
